@@ -61,6 +61,10 @@ def gen_cases(seed, tier):
             dom = gen_geo.gen_domain(rng, max_depth=0, allow=("translate", "rotate"), k=k, dim=2 if dim == 1 else dim)
         else:
             dom = gen_geo.gen_domain(rng, max_depth=1, allow=("bool",), k=min(k, 1), dim=dim)
+        if i % 6 == 1 and wk in ("prim", "flagged", "moved", "density_bool", "setvol") and "product" not in geo.spec_ops(dom["spec"]):
+            S = float(sampling.SCALES[(i // 6) % len(sampling.SCALES)])      # the same expression at another length scale
+            dom["spec"] = geo.scale_spec(dom["spec"], S)
+            dom["info"] = dict(dom["info"], scale=S)
         c.update(spec=dom["spec"], rows=dom["rows"], info=dom["info"], k=dom["k"])
         c["dens"] = [float(x) for x in rng.choice([1.5, 7, 30, 200, 1200, 3000], 2)]
         c["uservol"] = float(rng.uniform(0.5, 9))
@@ -323,7 +327,7 @@ def run_case(case):
     wk = case["wk"]
     shape = "".join(c for c in info["desc"] if not c.isdigit())
     res["cls"] = "%s|%s|%s|%s" % (wk, shape, _kcls(k), "dep" if info["dep"] else "const")
-    mech = {"wk": wk, "root": info["kind"], "dep": bool(info["dep"]), "k": _kcls(k)}
+    mech = {"wk": wk, "root": info["kind"], "dep": bool(info["dep"]), "k": _kcls(k), "scale": info.get("scale", 1.0)}
     spec = case["spec"]
     m = node.measure(env, kk)
     if wk in ("prim", "flagged", "product", "moved") and m is not None:
